@@ -589,6 +589,26 @@ def corpus_run(ctx, fam, build, K, extra_adv, nlo=-1, nhi=3, stage1=False, secon
             code = "\n".join(l for l in open(fp).read().splitlines() if not l.lstrip().startswith("//"))
             if stub.search(code):
                 front_end.append((pid, "generated code still calls the no-op stub: " + stub.search(code).group(0)))
+    # side-effect imports and compiler directives of the source file must survive (C13 names both;
+    # a front-end observation on the output text, applied to every corpus file that has any)
+    for pid, d in list(corp.where.items()):
+        sp, op = os.path.join(ctx.ws, "src", d, "gen_%s.go" % pid), os.path.join(ctx.ws, "out", d, "gen_%s.go" % pid)
+        if not (os.path.exists(sp) and os.path.exists(op)):
+            continue
+        st, ot = open(sp).read(), open(op).read()
+        for imp in re.findall(r'^\s*_ "([^"]+)"', st, flags=re.M):
+            if not re.search(r'^\s*_ "%s"' % re.escape(imp), ot, flags=re.M):
+                front_end.append((pid, "side-effect import %s of the source is missing in the generated file" % imp))
+        src_dirs = re.findall(r"^//go:(?!build|generate)\w+.*$", st, flags=re.M)
+        out_dirs = re.findall(r"^//go:(?!build|generate)\w+.*$", ot, flags=re.M)
+        for dct in set(src_dirs):
+            if out_dirs.count(dct) < src_dirs.count(dct):
+                front_end.append((pid, "compiler directive %r of the source is missing in the generated file" % dct))
+    # one report per program: the first observation, the number of further ones appended
+    merged = {}
+    for pid, msg in front_end:
+        merged.setdefault(pid, []).append(msg)
+    front_end = [(pid, msgs[0] + ("" if len(msgs) == 1 else " (+%d more)" % (len(msgs) - 1))) for pid, msgs in merged.items()]
     pairs = corp.pairs(ref_tree=ref_tree)
     if not pairs:
         raise CheckError("no corpus package survived compilation")
@@ -1166,6 +1186,15 @@ def plan_C13(ctx):
         PA = "var arr [4]int\nfill := func(p *[4]int) {\n\tfor i, v := range p {\n\t\tif i+1 < len(p) {\n\t\t\tp[i+1] = v + a + i\n\t\t}\n\t}\n}\narr[0] = b\nfill(&arr)"
         ps.append(gen.Program("n_closure_prefix_sums", [("raw", PRE), ("yield", "xs[1]"), ("yield", "xs[2] + xs[3]")], named_result=True, family="bys", tags={"bystander:closure-in-generator"}))
         ps.append(gen.Program("n_closure_array_pointer_fill", [("yield", "a"), ("raw", PA), ("yield", "arr[1]"), ("yield", "arr[2] + arr[3]")], named_result=True, family="bys", tags={"bystander:closure-in-generator"}))
+        DIRS = "//go:noinline\nfunc pin@(x int) int { return x*3 + 1 }\n\n//go:embed gen_@.go\nvar hdr@ string\n\n// a free-floating remark that nothing depends on\n\n//go:nosplit\nfunc tiny@() int { return len(hdr@) & 1 }\n"
+        for name, imps in (("directives", "_embed"), ("blank_imports", "_embed _image/png _unicode/utf8")):
+            pid = "dv_" + name
+            p = gen.Program(pid, [("yield", "pin%s(a)" % pid), ("yield", "tiny%s() + b" % pid)], helpers=("// EXTRA-IMPORTS: %s\n" % imps) + DIRS.replace("@", pid), named_result=True, family="dirs", tags={"bystander:" + name})
+            ps.append(p)
+        # an earlier file of the same package with a function-literal generator (per-file rewriter state)
+        lit = gen.Program("aa_lit", [("yield", "a"), ("yield", "b + 1")], named_result=False, family="dirs", tags={"bystander:lit-generator-first"})
+        lit.form = "lit"
+        ps.append(lit)
         for p in ps:
             corp.add(p)
         return {"bystander_programs": len(ps), "shapes": [n for n, _ in gen.C13_BODIES],
